@@ -237,11 +237,30 @@ class Executor:
                 paths.append(self.path)
         return paths
 
+    _hq: dict = {}
+
+    def has_quant(self, t) -> bool:
+        k = t.get_id()
+        r = self._hq.get(k)
+        if r is None:
+            if z3.is_quantifier(t):
+                r = True
+            elif z3.is_app(t):
+                r = any(self.has_quant(c) for c in t.children())
+            else:
+                r = False
+            self._hq[k] = r
+        return r
+
     def feasible(self, extra) -> bool:
         self.feas_checks += 1
+        if self.has_quant(extra):
+            return True        # quantified conditions are never used to prune
         self.solver.push()
         try:
             for c in self.path.pc:
+                if self.has_quant(c):
+                    continue   # dropping assumptions only enlarges the feasible set (sound)
                 self.solver.add(c)
             self.solver.add(extra)
             try:
@@ -374,8 +393,35 @@ class Executor:
     def test(self, v: Val) -> bool:
         return self.branch(self.truthy(v))
 
+    def norm_item(self, v: Val) -> Val:
+        """A value about to be stored in a code point list: tuple components that are list
+        items themselves must be the int alternative."""
+        if isinstance(v, VTuple) and any(isinstance(i, VItv) for i in v.items):
+            return VTuple([self.itv_num(i) for i in v.items])
+        return v
+
+    def itv_num(self, v: Val) -> Val:
+        """An int-or-tuple list item used as a number: it must be the int (else TypeError)."""
+        if isinstance(v, VItv):
+            if self.pure:
+                return VInt(v.lo)
+            if self.branch(v.isint):
+                return VInt(v.lo)
+            self.raise_py(TypeError)
+        return v
+
     def eq(self, a: Val, b: Val):
         """z3 Bool for Python a == b (value equality of builtins)."""
+        if isinstance(a, VItv) or isinstance(b, VItv):
+            if isinstance(b, VItv) and not isinstance(a, VItv):
+                a, b = b, a
+            if isinstance(b, VItv):
+                return z3.And(a.isint == b.isint, a.lo == b.lo, z3.Or(a.isint, a.hi == b.hi))
+            if isinstance(b, (VInt, VBool)):
+                return z3.And(a.isint, a.lo == as_int_term(b))
+            if isinstance(b, VTuple) and len(b.items) == 2 and all(as_int_term(i) is not None for i in b.items):
+                return z3.And(z3.Not(a.isint), a.lo == as_int_term(b.items[0]), a.hi == as_int_term(b.items[1]))
+            return z3.BoolVal(False)
         ra, rb = as_real_term(a), as_real_term(b)
         ia, ib = as_int_term(a), as_int_term(b)
         if ia is not None and ib is not None:
@@ -433,6 +479,7 @@ class Executor:
         ops = {'<': lambda x, y: x < y, '<=': lambda x, y: x <= y,
                '>': lambda x, y: x > y, '>=': lambda x, y: x >= y}
         f = ops[op]
+        a, b = self.itv_num(a), self.itv_num(b)
         ia, ib = as_int_term(a), as_int_term(b)
         if ia is not None and ib is not None:
             return f(ia, ib)
@@ -511,6 +558,7 @@ class Executor:
         return VFloat(False, 0, val, r < 0)
 
     def arith(self, op: str, a: Val, b: Val) -> Val:
+        a, b = self.itv_num(a), self.itv_num(b)
         ca, cb = a.conc, b.conc
         if ca is not NOTCONC and cb is not NOTCONC and type(ca) in (int, bool, decimal.Decimal) \
                 and type(cb) in (int, bool, decimal.Decimal) and op in ('+', '-', '*', '**', '//', '%') \
@@ -1005,6 +1053,22 @@ class Executor:
         return z3.If(i < 0, i + n, i)
 
     def index(self, obj, idx):
+        if isinstance(obj, VItv):
+            if not self.pure and self.branch(obj.isint):
+                self.raise_py(TypeError)          # int is not subscriptable
+            c = idx.conc
+            if c in (0, -2):
+                return VInt(obj.lo)
+            if c in (1, -1):
+                return VInt(obj.hi)
+            if c is NOTCONC:
+                raise OutOfSubset('symbolic index into a range item')
+            self.raise_py(IndexError)
+        if isinstance(obj, VSeq) and self.pure:
+            it = as_int_term(idx)
+            if it is None:
+                raise OutOfSubset('non-int index in a specification')
+            return obj.get(it)        # specification-level select: total
         if isinstance(obj, (VTuple, VPyList)):
             c = idx.conc
             if c is NOTCONC:
@@ -1318,6 +1382,13 @@ class Executor:
     def assign_target(self, t, v: Val, env: Env):
         if isinstance(t, ast.Name):
             env.assign(t.id, v)
+        elif isinstance(t, (ast.Tuple, ast.List)) and isinstance(v, VItv):
+            if self.branch(v.isint):
+                self.raise_py(TypeError)          # cannot unpack an int
+            if len(t.elts) != 2:
+                self.raise_py(ValueError)
+            self.assign_target(t.elts[0], VInt(v.lo), env)
+            self.assign_target(t.elts[1], VInt(v.hi), env)
         elif isinstance(t, (ast.Tuple, ast.List)):
             if isinstance(v, VSeq):
                 raise OutOfSubset('unpacking a symbolic-length sequence')
@@ -1362,7 +1433,7 @@ class Executor:
                 it = as_int_term(idx)
                 if self.branch(z3.Or(it >= obj.len, it < -obj.len)):
                     self.raise_py(IndexError)
-                obj.arr = z3.Store(obj.arr, self.norm_index(it, obj.len), obj.kind.unwrap(v))
+                obj.arr = z3.Store(obj.arr, self.norm_index(it, obj.len), obj.kind.unwrap(self.norm_item(v)))
             else:
                 raise OutOfSubset(f'subscript store on {obj!r}')
         else:
@@ -1418,6 +1489,11 @@ class Executor:
                     if not -len(obj.items) <= c < len(obj.items):
                         self.raise_py(IndexError)
                     del obj.items[c]
+                elif isinstance(obj, VSeq) and not isinstance(t.slice, ast.Slice):
+                    from . import models
+                    models.seq_delitem(self, obj, self.eval(t.slice, env))
+                elif isinstance(obj, VSeq) and t.slice.lower is None and t.slice.upper is None:
+                    obj.len = z3.IntVal(0)
                 elif isinstance(obj, VDictC) and not isinstance(t.slice, ast.Slice):
                     c = self.eval(t.slice, env).conc
                     if c is NOTCONC or c not in obj.d:
@@ -1554,6 +1630,30 @@ class Executor:
                         names.append(n.id)
         return names
 
+    MUTATORS = {'append', 'extend', 'insert', 'pop', 'remove', 'clear', 'sort', 'reverse'}
+
+    def mutated_seqs(self, stmts, env):
+        """Symbolic sequences the statements may mutate in place (subscript store / del /
+        mutating method), found syntactically and resolved in the current environment."""
+        exprs = []
+        for st in stmts:
+            for n in ast.walk(st):
+                if isinstance(n, ast.Subscript) and isinstance(n.ctx, (ast.Store, ast.Del)):
+                    exprs.append(n.value)
+                elif isinstance(n, ast.Call) and isinstance(n.func, ast.Attribute) and n.func.attr in self.MUTATORS:
+                    exprs.append(n.func.value)
+        out = []
+        for e in exprs:
+            if not all(isinstance(x, (ast.Name, ast.Attribute, ast.Load)) for x in ast.walk(e)):
+                continue
+            try:
+                v = self.eval(e, env)
+            except (OutOfSubset, PyRaise):
+                continue
+            if isinstance(v, VSeq) and not any(v is o for o in out):
+                out.append(v)
+        return out
+
     def havoc_like(self, name, v: Val) -> Val:
         if isinstance(v, VInt):
             return VInt(self.fresh(name, z3.IntSort()), v.pycls)
@@ -1568,6 +1668,8 @@ class Executor:
                         self.fresh(name + '_arr', z3.ArraySort(z3.IntSort(), v.kind.sort)), v.kind, v.pycls)
         if isinstance(v, VItem):
             return VItem(self.fresh(name, ITEM_SORT))
+        if isinstance(v, VItv):
+            return VItv(self.fresh(name, ITV_SORT))
         if isinstance(v, VFloat):
             return VFloat(self.fresh(name + '_nan', z3.BoolSort()), self.fresh(name + '_inf', z3.IntSort()),
                           self.fresh(name + '_val', z3.RealSort()), self.fresh(name + '_neg', z3.BoolSort()), v.pycls)
@@ -1575,13 +1677,29 @@ class Executor:
             return v
         raise OutOfSubset(f'cannot havoc loop variable {name} = {v!r}')
 
+    def inv_env(self, env: Env) -> Env:
+        """Environment for loop invariants: the function's locals, then the contract's names
+        and specification functions."""
+        spec_env = getattr(self.path, 'spec_env', None)
+        if spec_env is None or env is spec_env:
+            return env
+        e = Env(spec_env)
+        e.vars = env.vars          # shared: reflects the current values of the locals
+        return e
+
     def spec_eval(self, expr: str, env: Env) -> Val:
         node = ast.parse(expr, mode='eval').body
         self.pure += 1
+        self.globs_stack.append(self.spec_globs)
         try:
             return self.eval(node, env)
         finally:
+            self.globs_stack.pop()
             self.pure -= 1
+
+    spec_globs: dict = {}
+    mem_hints: list = []
+    hint_env = None
 
     def run_loop(self, node, env, spec: LoopSpec, head, body_prefix):
         """Generic invariant-based loop cut.
@@ -1589,10 +1707,13 @@ class Executor:
         the loop variable through body_prefix)."""
         ordinal = self.loop_ordinal(node)
         tag = f'loop{ordinal}@{node.lineno}'
+        ienv = self.inv_env(env)      # invariants see contract names too
+        self.hint_env = ienv
         # 1. invariant holds on entry
         for k, inv in enumerate(spec.invariants):
-            self.oblige(f'{tag}.inv{k}.entry', self.truthy(self.spec_eval(inv, env)), 'V', inv)
+            self.oblige(f'{tag}.inv{k}.entry', self.truthy(self.spec_eval(inv, ienv)), 'V', inv)
         mode = self.choose(2, tag)
+        self.path.havocked = True      # from here on the state is an arbitrary loop state, not a concrete run
         # 2. havoc everything the body may assign
         names = self.assigned_names(node.body) + list(spec.havoc_extra)
         if isinstance(node, ast.For):
@@ -1601,6 +1722,10 @@ class Executor:
             cur = env.lookup(n)
             if cur is not None:
                 env.assign(n, self.havoc_like(n, cur))
+        for sq in self.mutated_seqs(node.body, env):
+            sq.len = self.fresh('seq_len', z3.IntSort())
+            sq.arr = self.fresh('seq_arr', z3.ArraySort(z3.IntSort(), sq.kind.sort))
+            self.path.pc.append(sq.len >= 0)
         ghost_i = env.lookup(f'_i{ordinal}')
         if ghost_i is not None:
             env.assign(f'_i{ordinal}', self.havoc_like(f'_i{ordinal}', ghost_i))
@@ -1608,13 +1733,13 @@ class Executor:
             self.path.out = self.havoc_like('out', self.path.out)
             env.vars['out'] = self.path.out
         for inv in spec.invariants:
-            self.assume(self.truthy(self.spec_eval(inv, env)))
+            self.assume(self.truthy(self.spec_eval(inv, ienv)))
         cond = head(env)
         if mode == 0:
             self.assume(cond)
             var0 = None
             if spec.variant:
-                var0 = as_int_term(self.spec_eval(spec.variant, env))
+                var0 = as_int_term(self.spec_eval(spec.variant, ienv))
             body_prefix(env)
             try:
                 self.exec_block(node.body, env)
@@ -1624,9 +1749,9 @@ class Executor:
                 return   # genuine exit through break: continue after the loop (no else)
             self.loop_step(node, env)
             for k, inv in enumerate(spec.invariants):
-                self.oblige(f'{tag}.inv{k}.preserved', self.truthy(self.spec_eval(inv, env)), 'V', inv)
+                self.oblige(f'{tag}.inv{k}.preserved', self.truthy(self.spec_eval(inv, ienv)), 'V', inv)
             if spec.variant:
-                var1 = as_int_term(self.spec_eval(spec.variant, env))
+                var1 = as_int_term(self.spec_eval(spec.variant, ienv))
                 self.oblige(f'{tag}.variant', z3.And(var0 >= 0, var1 < var0), 'V', spec.variant)
             raise PathEnd('cut')
         else:
@@ -1668,7 +1793,7 @@ class Executor:
             u = [self.unique_value(x) for x in (it.lo, it.hi, it.step)]
             if None not in u:
                 it = VRange(*u)
-        if isinstance(it, VRange) and NOTCONC in (it.lo.conc, it.hi.conc, it.step.conc) or isinstance(it, VSeq):
+        if isinstance(it, VRange) and NOTCONC in (it.lo.conc, it.hi.conc, it.step.conc) or isinstance(it, (VSeq, VEnum)):
             if spec is None:
                 raise OutOfSubset(f'for loop at line {node.lineno} over a symbolic sequence needs an invariant')
             gi = f'_i{ordinal}'
@@ -1677,6 +1802,15 @@ class Executor:
                 seq = it
                 cond = lambda e: e.lookup(gi).t < seq.len
                 prefix = lambda e: self.assign_target(node.target, seq.get(e.lookup(gi).t), e)
+            elif isinstance(it, VEnum):
+                seq = it.seq        # the live list: its length is re-read at every iteration
+                st = as_int_term(it.start)
+                cond = lambda e: e.lookup(gi).t < seq.len
+                prefix = lambda e: self.assign_target(
+                    node.target, VTuple([VInt(st + e.lookup(gi).t), seq.get(e.lookup(gi).t)]), e)
+            elif it.step.conc == -1:
+                cond = lambda e: it.lo.t - e.lookup(gi).t > it.hi.t
+                prefix = lambda e: self.assign_target(node.target, VInt(it.lo.t - e.lookup(gi).t), e)
             else:
                 if it.step.conc != 1:
                     raise OutOfSubset('symbolic range with step != 1')
@@ -1685,9 +1819,7 @@ class Executor:
             inv_i = f'{gi} >= 0'
             spec2 = LoopSpec([inv_i] + spec.invariants, spec.variant, None, spec.havoc_extra)
             # bound of the ghost index
-            if isinstance(it, VSeq):
-                env.vars['_len%d' % ordinal] = VInt(seq.len)
-                spec2.invariants.insert(1, f'{gi} <= _len{ordinal}')
+            # (no implicit bound on the ghost index: the list may be mutated; contracts state it)
             return self.run_loop(node, env, spec2, cond, prefix)
         items = self.iter_concrete(it)
         if len(items) > (spec.unroll if spec and spec.unroll else self.max_unroll):
@@ -1769,6 +1901,13 @@ class Executor:
 
 class DecimalLocalContext:
     """Marker class of the object returned by decimal.localcontext()."""
+
+
+class VEnum(Val):
+    """enumerate(seq, start) over a symbolic-length sequence"""
+
+    def __init__(self, seq, start):
+        self.seq, self.start = seq, start
 
 
 class VSlice(Val):
